@@ -430,7 +430,7 @@ def r9(ctx):
     C01.r3(sub)
     n = 0
     for o in sub.obligations:
-        if "heads_received" not in o["key"]:
+        if "replica=open" not in o["key"]:
             continue
         o = dict(o)
         o["key"] = o["key"].replace("C01.R3", "C13.R9")
@@ -440,7 +440,7 @@ def r9(ctx):
         if o["status"] != "holds":
             ctx.violations.append(o)
     ctx.analysed_bodies |= sub.analysed_bodies
-    ctx.floor("C13.R9", 1)
+    ctx.floor("C13.R9", 3)
 
 
 def r10(ctx):
